@@ -170,7 +170,16 @@ Example C03_quirk_303_refuted :
   has_neg_bytev e = true /\ option_map (jmatch e) (json_parse txt) = Some false /\ qmatch false false true e txt = Some [].
 Proof. vm_compute. repeat split; reflexivity. Qed.
 
-(* =========================================================================================================
+(* write options (bits 9, 10): the unmet required field 1 and the unmet default fields 2, 4 are appended in ascending id with
+   their zero values, the unmet optional field 3 is not; a binary-keyed map keeps the raw key text *)
+Example C03_unset_example :
+  fst (t2j_specw (2 ^ 9 + 2 ^ 10) ex_desc (VStruct [(9, VI16 7)])) =
+    TOk (EObj [([100], EDouble 0); ([98; 105; 110], EStr []); ([115], EObj [])]) /\
+  fst (t2j_specw (2 ^ 9) ex_desc (VStruct [(9, VI16 7)])) = TErr E_REQUIRED /\
+  json_ofw 0 (DMap (DString true) (DScalar T_BOOL)) (VMap T_STRING T_BOOL [(VString [255; 34], VBool 1)]) = TOk (EObj [([255; 34], EBool true)]).
+Proof. vm_compute. repeat split; reflexivity. Qed.
+
+(* ================================================================================================================
    ALGORITHM LEVEL: the byte walk of conv/t2j (model/T2JBytes.v, mirroring doRecurse: field headers, container headers,
    skipping of unknown fields, incremental text with comma bookkeeping, requires bitmap) refines the spec json_of.
    Tied to the implementation by check 304 (text of the Gallina walk = text of BinaryConv.Do, double lexemes by dec2f64). *)
@@ -283,12 +292,3 @@ Theorem C03_walk_text_tokens : forall o v d n r txt r', o_value_mapping o = fals
   exists e, json_of o d v = TOk e /\ txt = render f64_exact_lexeme (jtoks e).
 Proof. exact walk_text_tokens. Qed.
 Print Assumptions C03_walk_text_tokens.
-=======
-(* write options (bits 9, 10): the unmet required field 1 and the unmet default fields 2, 4 are appended in ascending id with
-   their zero values, the unmet optional field 3 is not; a binary-keyed map keeps the raw key text *)
-Example C03_unset_example :
-  fst (t2j_specw (2 ^ 9 + 2 ^ 10) ex_desc (VStruct [(9, VI16 7)])) =
-    TOk (EObj [([100], EDouble 0); ([98; 105; 110], EStr []); ([115], EObj [])]) /\
-  fst (t2j_specw (2 ^ 9) ex_desc (VStruct [(9, VI16 7)])) = TErr E_REQUIRED /\
-  json_ofw 0 (DMap (DString true) (DScalar T_BOOL)) (VMap T_STRING T_BOOL [(VString [255; 34], VBool 1)]) = TOk (EObj [([255; 34], EBool true)]).
-Proof. vm_compute. repeat split; reflexivity. Qed.
